@@ -62,13 +62,19 @@ def instances(tier, seed):
     # validators and constants over bytes and text sub-constructs
     for sub, n, vals, text in (("Bytes(2)", 2, [b"ab", b"\x00\x00", b"\xff\xfe"], False), ("Bytes(1)", 1, [b"\x00", b"a"], False),
                                ("PaddedString(2, 'ascii')", 2, ["ab", "a", ""], True), ("PaddedString(2, 'utf8')", 2, ["a", "\u00e9"], True),
-                               ("CString('ascii')", 3, ["", "x", "xy"], True), ("PascalString(Byte, 'ascii')", 3, ["", "ab"], True)):
+                               ("CString('ascii')", 3, ["", "x", "xy"], True), ("PascalString(Byte, 'ascii')", 3, ["", "ab"], True),
+                               # framed sub-constructs: the constant's encoding is more than the constant's bytes
+                               ("NullTerminated(GreedyBytes)", 3, [b"ab", b""], False), ("Prefixed(Byte, GreedyBytes)", 3, [b"ab", b""], False), ("ProcessXor(0x20, Bytes(2))", 2, [b"MZ", b"  "], False),
+                               ("Padded(3, Bytes(2), pattern=b'\\xee')", 3, [b"ab"], False)):
         for neg in (False, True):
             out.append(dict(name="%s(%s, %r)" % ("NoneOf" if neg else "OneOf", sub, vals), params=dict(kind="oneofseq", sub=sub, n=n, vals=[v.hex() if isinstance(v, bytes) else v for v in vals], text=text, neg=neg)))
         out.append(dict(name="Const(%r, %s) vs its sub-construct" % (vals[0], sub), params=dict(kind="constseq", sub=sub, n=n, c=vals[0].hex() if isinstance(vals[0], bytes) else vals[0], text=text)))
         out.append(dict(name="ExprValidator(%s, obj_ != %r)" % (sub, vals[0]), params=dict(kind="validatorseq", sub=sub, n=n, c=vals[0].hex() if isinstance(vals[0], bytes) else vals[0], text=text)))
         out.append(dict(name="Mapping(%s, labels -> %r)" % (sub, vals), params=dict(kind="mappingseq", sub=sub, n=n, vals=[v.hex() if isinstance(v, bytes) else v for v in vals], text=text)))
     out.append(dict(name="Enum from IntEnum", params=dict(kind="enum-intenum")))
+    out.append(dict(name="Enum built from another Enum's label object", params=dict(kind="enum-foreign")))
+    for i in range(len(ERROR_BUILD_NONE)):
+        out.append(dict(name="Error behind a condition, built from an absent value: %s" % ERROR_BUILD_NONE[i][0], params=dict(kind="error-none", i=i)))
     out.append(dict(name="Mapping(Byte)", params=dict(kind="mapping")))
     out.append(dict(name="Mapping(Bytes(1))", params=dict(kind="mapping-bytes")))
     for w in ("Select({}, Byte)", "Optional({})", "GreedyRange({})", "Peek({})", "Struct('a'/Byte, 'e'/{})", "Sequence(Byte, {})", "Array(1, {})",
@@ -77,6 +83,39 @@ def instances(tier, seed):
               "Peek(Struct('a'/Byte, {}))", "Padded(2, {})", "NullTerminated({}, require=False)", "Lazy({})" if False else "Pointer(0, {})"):
         out.append(dict(name="Error inside %s" % w.format("Error"), params=dict(kind="error", source=w.format("Error"))))
     return out
+
+
+ERROR_BUILD_NONE = [
+    ("Optional(IfThenElse(this._params.c, Byte, Error))", None, dict(c=0)), ("Select(Switch(this._params.k, {1: Byte}, default=Error), Pass)", None, dict(k=0)),
+    ("Struct('a'/Byte, 'o'/Optional(Struct(Error, 'x'/Byte)))", dict(a=1), {}), ("Sequence(Byte, Optional(Sequence(Error, Byte)))", [1, None], {}),
+    ("Struct('a'/Byte, 'o'/Select(IfThenElse(this.a, Error, Byte), Pass))", dict(a=1), {}), ("Optional(FocusedSeq('x', Error, 'x'/Byte))", None, {}),
+]
+
+
+def _error_none(ctx, C, p):
+    source, v, kw = ERROR_BUILD_NONE[p["i"]]
+    d = mk(C, source)
+    r = api.outcome(d.build, v, **kw)
+    ctx.check("Error is reached while building an absent value and aborts the build with ExplicitError (got %s)" % ("bytes" if r.ok else type(r.exc).__name__),
+              (not r.ok) and isinstance(r.exc, C.ExplicitError))
+    return "ok"
+
+
+def _enum_foreign(ctx, C, p):
+    """a label object carries a name: another Enum translates it through ITS table (or refuses it), never through the number it came with"""
+    e1, e2 = mk(C, "Enum(Byte, a=1, b=2)"), mk(C, "Enum(Byte, a=5, c=7, b=2)")
+    data = ctx.bytes("data", 1)
+    lab = e2.parse(data)
+    r = api.outcome(e1.build, lab)
+    if isinstance(lab, str):
+        name = str(lab)
+        if name in ("a", "b"):
+            ctx.check("label %r from another Enum builds to this Enum's number" % name, r.ok and ctx.fork(ctx.eq(r.value, mkbytes([{"a": 1, "b": 2}[name]]))))
+        else:
+            ctx.check("label %r unknown to this Enum is refused with MappingError" % name, (not r.ok) and isinstance(r.exc, C.MappingError))
+        return "label"
+    ctx.check("an unlabelled integer builds as itself", r.ok and ctx.fork(ctx.eq(r.value, data)))
+    return "int"
 
 
 def harness(ctx, C, p):
